@@ -309,6 +309,7 @@ func (g Gateway) Set(ctx context.Context, in *hydrapb.SetRequest) (*hydrapb.SetR
 
 					// create the treasure and start the guard
 					treasureInterface := swampInterface.CreateTreasure(item.Key)
+					verifhook.Point("gateway.set.obtained")
 					guardID := treasureInterface.StartTreasureGuard(true)
 					defer treasureInterface.ReleaseTreasureGuard(guardID)
 					verifhook.Point("gateway.set.guarded")
